@@ -260,6 +260,7 @@ def bandlimited_rms(r, psd, wllow=None, wlhigh=None, flow=None, fhigh=None):
         c2 = tuple(c2)
         pt1 = r[c]
         pt2 = r[c2]
+        dx1 = abs(r[c[0], c[1]-1] - pt1)  # sample spacing along axis 1
     else:
         c = r.shape[0]//2
         pt1 = r[c]
@@ -270,7 +271,7 @@ def bandlimited_rms(r, psd, wllow=None, wlhigh=None, flow=None, fhigh=None):
     reduced = _trapz(work, dx=dx, axis=0)
 
     if r.ndim == 2:
-        reduced = _trapz(reduced, dx=dx, axis=0)
+        reduced = _trapz(reduced, dx=dx1, axis=0)
 
     return np.sqrt(reduced)
 
